@@ -398,7 +398,18 @@ def _load_plugins():
             GENERATORS[m.NAME] = m.generate
 
 
-_load_plugins()
+_PLUGINS_LOADED = False
+
+
+def load_plugins():
+    global _PLUGINS_LOADED
+    if _PLUGINS_LOADED:
+        return
+    _PLUGINS_LOADED = True
+    # plug-ins do `import gen_tables`; when this file runs as a script make that the same module
+    if __name__ == "__main__":
+        sys.modules.setdefault("gen_tables", sys.modules["__main__"])
+    _load_plugins()
 
 
 def write_if_changed(path, text):
@@ -410,6 +421,7 @@ def write_if_changed(path, text):
 
 
 def main(which=None):
+    load_plugins()
     os.makedirs(GEN, exist_ok=True)
     status = {}
     for name, fn in GENERATORS.items():
